@@ -242,7 +242,8 @@ Definition discover (d : disc) (iss : option bool) : option err :=
 (** what the cache lookup of a call (JWK of the kid / introspection response of
     the token / identity payload of the session value) found: nothing, an entry,
     or — generic only, which stores any 2xx body — an entry that is not JSON.
-    With an entry the endpoint is not contacted. *)
+    With an entry the endpoint is not contacted; what the entry holds is checked as a
+    fresh answer would be (introspection: deaddf0, generic session lifespan: abc25e7). *)
 Inductive lookup := LMiss | LHit | LHitGarbage.
 
 Definition is_hit (h : lookup) : bool := match h with LMiss => false | _ => true end.
@@ -314,7 +315,7 @@ Definition classify_generic (rem : remote) (lifespan : bool) (hit : lookup) (q :
       | None =>
         match s with
         | SUnknown => Failed (EOther KComm)               (* 401 is "unexpected response code" *)
-        | SInactive sub => if lifespan && negb (is_hit hit) then Failed ERejected else Accepted sub   (* a cached payload is not asserted again *)
+        | SInactive sub => if lifespan then Failed ERejected else Accepted sub   (* asserted for a cached payload too (fix abc25e7) *)
         | SNoSubject => Failed (EOther KInternal)
         | SGood sub => Accepted sub
         end
